@@ -13,7 +13,7 @@ import ast
 
 from ..cfg import known_falsy, known_truthy
 from ..model import self_attr, unparse, walk_body_shallow
-from .util import deferred_origins, call_name, call_recv, calls_in, need, node_assign_value, node_writes_attr, norm, registrations, where
+from .util import stored_forms, deferred_origins, call_name, call_recv, calls_in, need, node_assign_value, node_writes_attr, norm, registrations, where
 
 TECHNIQUE = "loss/resend typestate on (proto, connector, sent, cancelled) via guard facts and who-may-call/write"
 EXPLANATION = (
@@ -245,6 +245,14 @@ def run(ctx):
         bool(sqn) and all(known_falsy(fcb[n.id], "self._dDown") for n in sqn)
     r.check(ok, "%s#success-resets" % cb.qname, "successful connect does not zero the failure count, clear the attempt and "
             "(unless closing) send the queue", where(cb, cb.node), "back-off keeps growing / queued requests never sent")
+
+    # the back-off between attempts is the caller's policy, as given
+    binit = ctx.func(BC + ".__init__")
+    forms = stored_forms(ctx, binit, "_retryPolicy")
+    pol_params = [p_ for p_ in binit.params if "olicy" in p_]
+    r.check(bool(forms) and bool(pol_params) and all(f_ == "<param:%s>" % pol_params[0] for f_ in forms), "%s#policy-as-configured" % binit.qname,
+            "the retry policy used between connection attempts is %s, not the configured one" % forms, where(binit, binit.node),
+            "a configured back-off above some built-in ceiling is silently shortened: a struggling broker is hammered every few seconds")
 
     # ---- R6 close
     r = ctx.rule("R6", "close: flag first; drop connection / cancel attempt / fire; fail every pending request; refuse new ones", 5, "B")
